@@ -311,3 +311,52 @@ def case_batches(ctx, drv, c15):
                               {"stream": "batches", "n": n, "b": b}, observed=rb[:4], required="tiling of range(n)")
     ctx.dist["batches:grid"] += len(grid)
     ctx.mark(("batches", len(grid)))
+
+
+# ------------------------------------------------------------------------------------------------ input forms of from_data
+def inputform_cases():
+    return [{"stream": "inputforms", "H": H, "W": W, "n": n, "nk": nk, "pad": pad, "angles": angs[:n], "sub": 4000 + i}
+            for i, (H, W, n, nk, pad, angs) in enumerate([(4, 6, 2, 1, 0.25, [0, 90, 45]), (6, 4, 3, 3, 0.0, [-90, 200, 270]),
+                                                          (5, 5, 2, 4, 0.5, [315, 30, 0]), (3, 8, 3, 2, 0.0, [180, 90, -45])])]
+
+
+def case_inputforms(ctx, c15, case):
+    """every accepted form of `images` (validate_list_of_dataset2d: Dataset3d, 3-D ndarray, list of Dataset2d, list of 2-D ndarrays) gives the
+    same resampling geometry and warped stack; the other forms are rejected with TypeError (predicate only — the validator's container dispatch
+    is not in the Lean model)"""
+    from qv.prng import Rng
+    from quantem.imaging.drift import DriftCorrection
+    try:
+        from quantem.core.datastructures import Dataset2d, Dataset3d
+    except Exception:
+        ctx.extra["inputforms:Dataset2d / Dataset3d not importable (stream skipped)"] = True
+        return
+    H, W, n, nk, pad, angles = case["H"], case["W"], case["n"], case["nk"], case["pad"], case["angles"]
+    rng = Rng(case["sub"])
+    images = [c15.make_image(rng, H, W) for _ in range(n)]
+    ctx.count()
+    cfg = dict(pad_fraction=pad, pad_value="median", kde_sigma=0.5, number_knots=nk)
+    ref = DriftCorrection.from_data([im.copy() for im in images], list(angles)).preprocess(**cfg)
+    err, scale = _placement_err(c15, ref, H, W, angles)
+    if not err <= TOL64 * scale:
+        ctx.pred_fail(f"placement-nk{nk}-inputform", "pixel (r,c) is not placed at canvas centre + rotation of its offset from the image centre", case,
+                      observed={"max_err_px": err}, required="<= 1e-9 * canvas size")
+    forms = {"Dataset3d": lambda: Dataset3d.from_array(np.stack(images)), "ndarray3d": lambda: np.stack(images),
+             "list of Dataset2d": lambda: [Dataset2d.from_array(im.copy()) for im in images]}
+    for name, mk in forms.items():
+        ctx.dist[f"inputforms:{name}"] += 1
+        dc = DriftCorrection.from_data(mk(), list(angles)).preprocess(**cfg)
+        g, w = _state_diff(dc, ref)
+        if not (g <= TOL64 * scale and w <= 1e-6):
+            ctx.pred_fail("inputform-changes-resampling", f"the resampling of value-identical images depends on the container they are passed in ({name})", dict(case, form=name),
+                          observed={"geometry_diff_px": g, "warped_rel_diff": w}, required="identical to a list of 2-D arrays")
+    bad = {"tuple": lambda: tuple(images), "list with a str": lambda: [images[0], "x"], "list with a 3-D array": lambda: [images[0], np.stack(images)],
+           "2-D array": lambda: images[0], "None": lambda: None, "mixed ndarray / Dataset2d": lambda: [images[0], Dataset2d.from_array(images[1].copy())]}
+    for name, mk in bad.items():
+        ctx.dist[f"inputforms:rejected {name}"] += 1
+        try:
+            DriftCorrection.from_data(mk(), list(angles))
+            ctx.dist[f"inputforms:{name} accepted"] += 1
+        except (TypeError, ValueError):
+            pass
+    ctx.mark(("inputforms", c15.shape_sig(H, W), nk))
